@@ -181,7 +181,7 @@ func c09Scripts(r *fw.Rand, scen *gen.Scenario, n int) []c09script {
 		// every script starts its session and then evaluates the same templates over everything that is shared between
 		// sessions (globals, fields, groups, flow), so that whatever is built lazily on first use is hit by all goroutines
 		// of a round at once — in particular in the first round of a process
-		ops := []string{"start", "eval_shared"}
+		ops := []string{"start", "eval_shared", "eval_functions"}
 		for k := 0; k < r.Range(2, 6); k++ {
 			ops = append(ops, fw.Pick(r, []string{"resume", "resume", "reread", "reread", "inspect", "templates", "change_language", "eval", "eval_webhook", "query", "modifier", "localizables"}))
 		}
@@ -194,12 +194,16 @@ func c09Scripts(r *fw.Rand, scen *gen.Scenario, n int) []c09script {
 }
 
 var c09SharedTemplates = []string{"@globals.org_name @globals.limit", "@globals", "@(json(globals))", "@fields", "@(json(contact.fields))", "@contact.groups", "@(json(contact.groups))",
-	"@run.flow @run.flow.name", "@(json(run.flow))", "@urns", "@contact.channel", "@(format_location(fields.state))", "@(has_group(contact.groups, \"x\").match)", "@trigger.params @trigger.type", "@(has_text(\"\").match)"}
+	"@run.flow @run.flow.name", "@(json(run.flow))", "@urns", "@contact.channel", "@(format_location(fields.state))", "@(has_group(contact.groups, \"x\").match)", "@trigger.params @trigger.type", "@(has_text(\"\").match)",
+	// lookups in the shared location hierarchy, with and without a parent, for names that several locations answer to
+	"@(has_ward(\"Gisozi\", \"Gasabo\", \"Kigali City\").match) @(has_ward(\"Gisozi\", \"Nyarugenge\", \"Kigali City\").match) @(has_district(\"Central\", \"Kigali City\").match) @(has_district(\"Central\").match) @(has_state(\"Capital\").match)",
+	"@(title(contact.name)) @(title(\"sA ACORÍS é\")) @(upper(contact.name)) @(lower(contact.name))"}
 
 type c09shared struct {
 	sa    flows.SessionAssets
 	eng   flows.Engine
 	flows []assets.FlowUUID
+	calls []string // the same for every goroutine of a round (and for its solo reference)
 }
 
 func c09Shared(scen *gen.Scenario) (*c09shared, error) {
@@ -211,7 +215,7 @@ func c09Shared(scen *gen.Scenario) (*c09shared, error) {
 	if err != nil {
 		return nil, err
 	}
-	sh := &c09shared{sa: sa, eng: drive.NewEngine(scen.Options)}
+	sh := &c09shared{sa: sa, eng: drive.NewEngine(scen.Options), calls: gen.CallsOfEveryFunction(fw.NewRand(int64(len(scen.Fingerprint())), "C09calls", 0), 2)}
 	for _, f := range scen.Flows() {
 		sh.flows = append(sh.flows, assets.FlowUUID(f["uuid"].(string)))
 	}
@@ -323,6 +327,19 @@ func runScript(sh *c09shared, sc *c09script, g int) (transcript []string, stamps
 			for _, t := range c09SharedTemplates {
 				out, _ := run.EvaluateTemplate(t, func(flows.Event) {})
 				emit("eval_shared", out)
+			}
+		case "eval_functions":
+			// every registered function and router test, called with literal arguments from all goroutines of the round at once
+			if session == nil || len(session.Runs()) == 0 {
+				break
+			}
+			run := session.Runs()[0]
+			if len(run.Path()) == 0 {
+				break
+			}
+			for _, t := range sh.calls {
+				out, _ := run.EvaluateTemplate(t, func(flows.Event) {})
+				emit("eval_functions", out)
 			}
 		case "eval_webhook":
 			if session == nil || len(session.Runs()) == 0 {
